@@ -200,24 +200,49 @@ example : negotiateCheck (some ⟨⟨0, [1]⟩⟩) ⟨⟨0, [2]⟩⟩ = .error .
 `/p2p`: (1) it is `some d` through both entry points — `open` derives it from the address `dial_peer` returns, which is
 the address it was given; (2) a node that proves any other identity `P ≠ d` gets `PeerIdMismatch`; (3) so a result
 `ok Q` means `d = P = Q`: no opened / established connection for a node that proved a different identity.
-(Without a `/p2p` suffix there is no expectation and every proven identity is accepted: last clause.) -/
+(Without a `/p2p` suffix there is no expectation and every proven identity is accepted: clause 4.)
+`d` ranges over EVERY `PeerId`, i.e. every representation `from_multihash` accepts; clause (5) spells out the case the
+comparison could get wrong — the expectation written in SHA2-256 form (`IdForm.sha256`, "Qm…") of any key `kb'` while
+the handshake derives the inlined id `P` of key `kb` (`|kb| ≤ MAX_INLINE_KEY_LENGTH`: every Ed25519 key): the ids are
+compared structurally, the result is `PeerIdMismatch` — for a different key as the property demands, and for the same
+key (`kb' = kb`) as well; (6) for every form `f` of the expectation, a connection is reported only under the proven id
+and only if the written expectation IS the proven id. -/
 theorem dialed_mismatch_any_address_family (e : Entry) (h : Host) (d : PeerId) (tail : DialedAddr) :
     entryDialedPeer e (.host h :: .tcp :: .p2p d :: tail) = some d ∧
     (∀ P, d ≠ P → transportCheck e (.host h :: .tcp :: .p2p d :: tail) P = .error .peerIdMismatch) ∧
     (∀ P Q, transportCheck e (.host h :: .tcp :: .p2p d :: tail) P = .ok Q → d = P ∧ Q = P) ∧
-    (∀ P, transportCheck e [.host h, .tcp] P = .ok P) := by
+    (∀ P, transportCheck e [.host h, .tcp] P = .ok P) ∧
+    (∀ (c : Crypto) (kb kb' : Bytes) (P : PeerId), kb.length ≤ Consts.MAX_INLINE_KEY_LENGTH →
+      peerIdOfEncoding c kb = .ok P → hashedIdOfEncoding c kb' = some d →
+      transportCheck e (.host h :: .tcp :: .p2p d :: tail) P = .error .peerIdMismatch) ∧
+    (∀ (c : Crypto) (f : IdForm) (kb' : Bytes) (P Q : PeerId), expectedIdOf c f kb' = some d →
+      transportCheck e (.host h :: .tcp :: .p2p d :: tail) P = .ok Q → Q = P ∧ expectedIdOf c f kb' = some P) := by
   have hexp : entryDialedPeer e (.host h :: .tcp :: .p2p d :: tail) = some d := by
     cases e <;> simp [entryDialedPeer, dialPeerAddress, expectedPeer, parseDialed]
   have hnone : entryDialedPeer e [.host h, .tcp] = none := by
     cases e <;> simp [entryDialedPeer, dialPeerAddress, expectedPeer, parseDialed]
-  refine ⟨hexp, ?_, ?_, ?_⟩
-  · intro P hne
+  have hmis : ∀ P, d ≠ P → transportCheck e (.host h :: .tcp :: .p2p d :: tail) P = .error .peerIdMismatch := by
+    intro P hne
     simp [transportCheck, hexp, negotiateCheck, hne]
-  · intro P Q hc
+  have hok : ∀ P Q, transportCheck e (.host h :: .tcp :: .p2p d :: tail) P = .ok Q → d = P ∧ Q = P := by
+    intro P Q hc
     rw [transportCheck, hexp] at hc
     exact dialed_mismatch d P Q hc
+  refine ⟨hexp, hmis, hok, ?_, ?_, ?_⟩
   · intro P
     simp [transportCheck, hnone, negotiateCheck]
+  · intro c kb kb' P hlen hP hd
+    apply hmis
+    intro heq
+    subst heq
+    -- the derived id of a short encoding carries the identity code, the hashed form the SHA2-256 code
+    have h1 := derived_short_code c kb d hlen hP
+    have h2 := hashed_code c kb' d hd
+    rw [h1] at h2
+    exact absurd h2 (by decide)
+  · intro c f kb' P Q hd hc
+    obtain ⟨h1, h2⟩ := hok P Q hc
+    exact ⟨h2, h1 ▸ hd⟩
 
 example :
     transportCheck .open [.host .dns4, .tcp, .p2p ⟨⟨0, [1]⟩⟩] ⟨⟨0, [2]⟩⟩ = .error .peerIdMismatch ∧
@@ -228,6 +253,19 @@ example :
     transportCheck .open [.host .dns4, .tcp, .p2p ⟨⟨0, [1]⟩⟩] ⟨⟨0, [1]⟩⟩ = .ok ⟨⟨0, [1]⟩⟩ ∧
     transportCheck .dial [.host .dns, .tcp] ⟨⟨0, [2]⟩⟩ = .ok ⟨⟨0, [2]⟩⟩ ∧
     expectedPeer [.host .dns4, .other, .p2p ⟨⟨0, [1]⟩⟩] = none := by decide
+
+/-- Non-vacuity of clauses (5), (6): key 3's encoding (36 bytes) has an inlined id; its own SHA2-256 form and the
+SHA2-256 form of key 4 both exist, differ from it, and are answered with `PeerIdMismatch` through `open` and `dial`. -/
+example :
+    let c := freeCrypto
+    let kb := keyEncoding (c.pubOf 3)
+    ∃ P x y, peerIdOfEncoding c kb = .ok P ∧ kb.length ≤ Consts.MAX_INLINE_KEY_LENGTH ∧
+      expectedIdOf c .sha256 kb = some x ∧ expectedIdOf c .sha256 (keyEncoding (c.pubOf 4)) = some y ∧
+      expectedIdOf c .derived kb = some P ∧
+      transportCheck .open [.host .dns, .tcp, .p2p x] P = .error .peerIdMismatch ∧
+      transportCheck .dial [.host .ip4, .tcp, .p2p y] P = .error .peerIdMismatch ∧
+      transportCheck .open [.host .ip6, .tcp, .p2p P] P = .ok P := by
+  refine ⟨_, _, _, rfl, by decide, rfl, rfl, rfl, by decide, by decide, by decide⟩
 
 
 /-- **Observation: the peer id is the hash of the RECEIVED key bytes.** For an accepted payload whose key bytes `kb`
